@@ -1259,52 +1259,72 @@ def _levels(repo, col):
             "DISCHARGED" if 0 <= i1 < i2 else ("VIOLATED" if i1 >= 0 and i2 >= 0 else "UNDECIDED"),
             "remap_to_consecutive(parent of each child), then np.unique" if 0 <= i1 < i2 else
             "the mapping child -> branch point is computed from the already de-duplicated parents: children lose their branch point", node=fi.node)
-    # within-branch edges: (i, i+1) and (i+1, i) for consecutive compartments
+    # within-branch edges: (i, i+1) and (i+1, i) for consecutive compartments -- on terms, so ranges written directly or as
+    # slices of one list of the branch's compartments are the same thing
+    from sa.termalg import term_rat as _tr
+
+    def _leaf(x):
+        if x.op == "item" and x.args[0].op == "elem" and x.args[0].args[0].op == "call" and x.args[0].args[0].name == "zip":
+            za = x.args[0].args[0].args
+            if isinstance(x.name, int) and x.name < len(za):
+                nm = za[x.name].name if za[x.name].op == "attr" else None
+                if nm == "ncomp_per_branch":
+                    return Rat.atom("n")
+                if nm == "cumsum_ncomp":
+                    return Rat.atom("c")
+        if x.op == "attr" and x.name == "ncomp" and x.args[0].op == "param":
+            return Rat.atom("n")
+        return None
+
+    def _range_of(t_):
+        """(lo, hi) of list(range(lo, hi)), possibly sliced [:-1] / [1:]"""
+        if t_.op == "call" and t_.name == "list" and len(t_.args) == 1:
+            return _range_of(t_.args[0])
+        if t_.op == "call" and t_.name == "range":
+            a_ = [_tr(x, _leaf) for x in t_.args]
+            return (ZERO, a_[0]) if len(a_) == 1 else (a_[0], a_[1])
+        if t_.op == "sub" and t_.args[1].op == "slice":
+            base = _range_of(t_.args[0])
+            lo, hi, st_ = t_.args[1].args
+            if base is None or not (st_.op == "const" and st_.name is None):
+                return None
+            blo, bhi = base
+            if lo.op == "const" and lo.name is None and hi.op == "unary" and hi.name == "USub" and hi.args[0].op == "const":
+                return (blo, bhi - Rat.const(hi.args[0].name))
+            if hi.op == "const" and hi.name is None and lo.op == "const" and isinstance(lo.name, int):
+                return (blo + Rat.const(lo.name), bhi)
+            return None
+        return None
+
     for cls in ("Branch", "Cell"):
         fi = repo.method(cls, "_init_morph_jax_spsolve")
-        d = None
+        exc = idxm.expander(repo, fi)
+        dterm = None
         for n in ast.walk(fi.node):
-            if isinstance(n, ast.Dict) and [k.value for k in n.keys if isinstance(k, ast.Constant)][:2] == ["source", "sink"] and \
-                    all(isinstance(v, ast.BinOp) for v in n.values[:2]):
-                d = n
-        if d is None:
+            if isinstance(n, ast.Dict) and [k.value for k in n.keys if isinstance(k, ast.Constant)][:2] == ["source", "sink"]:
+                dterm = (n, exc.term(n.values[0]), exc.term(n.values[1]))
+        if dterm is None:
             col.unk(R, fi, f"{cls}: within-branch edges", "edge dictionary not found", node=fi.node)
             continue
-        ev = kin.new_eval(repo)
-
-        class Rg:
-            def __init__(self, a, b):
-                self.a, self.b = a, b
-
-        def p_range(self_, args, kw, node):
-            a = [rat_of(x) for x in args]
-            return Rg(ZERO, a[0]) if len(a) == 1 else Rg(a[0], a[1])
-
-        def p_list(self_, args, kw, node):
-            return args[0]
-
-        ev.PRIMS = dict(ev.PRIMS)
-        ev.PRIMS.update({"range": p_range, "list": p_list})
-        env = {"self": ObjV(cls, {"ncomp": PW.of(Rat.atom("n"))}), "ncomp": PW.of(Rat.atom("n")), "cumsum_ncomp": PW.of(Rat.atom("c"))}
-        ctx = {"mod": repo.mods[fi.file], "cls": cls, "defining_cls": cls}
-
-        def halves(e):
-            if isinstance(e, ast.BinOp) and isinstance(e.op, ast.Add):
-                return [ev.ev(e.left, env, ctx), ev.ev(e.right, env, ctx)]
-            return None
-
+        d, so_t, si_t = dterm
         try:
-            so, si = halves(d.values[0]), halves(d.values[1])
-            ok = so and si and all(isinstance(x, Rg) for x in so + si)
-            if ok:
-                n_ = Rat.atom("n")
-                # first half: source [c, c+n-1), sink [c+1, c+n); second half swapped
-                c0 = so[0].a
-                ok = so[0].b.eq(c0 + n_ - ONE) and si[0].a.eq(c0 + ONE) and si[0].b.eq(c0 + n_) and \
-                    so[1].a.eq(si[0].a) and so[1].b.eq(si[0].b) and si[1].a.eq(so[0].a) and si[1].b.eq(so[0].b)
+            halves = []
+            for t_ in (so_t, si_t):
+                if not (t_.op == "binop" and t_.name == "+"):
+                    raise Und("source/sink is not a concatenation of two ranges")
+                h = [_range_of(t_.args[0]), _range_of(t_.args[1])]
+                if None in h:
+                    raise Und(f"range not recognised in {t_.short(60)}")
+                halves.append(h)
+            so, si = halves
+            n_ = Rat.atom("n")
+            c0 = so[0][0]
+            ok = so[0][1].eq(c0 + n_ - ONE) and si[0][0].eq(c0 + ONE) and si[0][1].eq(c0 + n_) and \
+                so[1][0].eq(si[0][0]) and so[1][1].eq(si[0][1]) and si[1][0].eq(so[0][0]) and si[1][1].eq(so[0][1]) and \
+                (c0.eq(ZERO) if cls == "Branch" else c0.eq(Rat.atom("c")))
             col.check(bool(ok), R, fi, f"{cls}: within-branch edges are (i, i+1) and (i+1, i) for i = first..last-1",
                       "source [c, c+n-1) + [c+1, c+n), sink [c+1, c+n) + [c, c+n-1)",
-                      f"edge ranges: source {[(repr(x.a), repr(x.b)) for x in so] if so else None}, sink {[(repr(x.a), repr(x.b)) for x in si] if si else None}",
-                      node=d)
+                      f"edge ranges: source {[(repr(a_), repr(b_)) for a_, b_ in so]}, sink {[(repr(a_), repr(b_)) for a_, b_ in si]} "
+                      f"(c = first compartment of the branch, n = its number of compartments)", node=d)
         except Und as e:
             col.unk(R, fi, f"{cls}: within-branch edges", str(e), node=d)
